@@ -111,11 +111,12 @@ inductive Err where
   | relErr     -- DirStructure: "failed to get relative path"
   | insecure   -- unpacking: archive entry outside of the unpack dir
   | scope      -- api bridge: "violates scope"
+  | statErr    -- fstree: "could not stat query root"
   deriving Repr, DecidableEq
 
 def Err.str : Err → String
   | .tooShort => "tooshort" | .integrity => "integrity" | .outside => "outside"
-  | .relErr => "rel" | .insecure => "insecure" | .scope => "scope"
+  | .relErr => "rel" | .insecure => "insecure" | .scope => "scope" | .statErr => "staterr"
 
 /-- `fstree.buildFilePath` (fstree.go).  Record keys (`checkKeyLength`) must name something strictly
     below the base path; a query prefix may also resolve to the base path itself. -/
@@ -126,27 +127,143 @@ def buildFilePath (base key : Path) (checkKeyLength : Bool) : Except Err Path :=
     if !hasPrefix dst (base ++ [47]) && (checkKeyLength || dst != base) then .error .integrity
     else .ok dst
 
-/-- What `os.Stat` says about the query's walk prefix. -/
+/-- What `os.Stat` says about the query's walk prefix (`other`: an error that is not "does not exist",
+    e.g. a path that leads through a file). -/
 inductive StatKind where
-  | dir | file | absent
+  | dir | file | absent | other
   deriving Repr, DecidableEq
 
-/-- The directory `fstree.Query` hands to `filepath.Walk`.  A directory is walked itself only if the key
-    prefix names it as a directory (empty prefix, trailing `/`) or if it is the base path (a walk never
-    starts above the database directory); otherwise the prefix may end within a segment and the parent
-    directory is walked (the key prefix is applied to every record found, `queryMatchesKey`). -/
-def queryWalkRoot (base pre : Path) (stat : Path → StatKind) : Except Err Path :=
+/-- The directory `fstree.Query` hands to `filepath.Walk`; `none`: no walk at all, the query is finished and empty.
+    A key prefix that resolves to the database directory itself is answered without a walk when that directory
+    is missing or not a directory (a walk never starts above it).  Otherwise a directory is walked itself only if
+    the key prefix names it as a directory (empty prefix, trailing `/`) or if it is the base path; in all other
+    cases the prefix may end within a segment and the parent directory is walked (the key prefix is applied to
+    every record found, `queryMatchesKey`). -/
+def queryWalkRoot (base pre : Path) (stat : Path → StatKind) : Except Err (Option Path) :=
   match buildFilePath base pre false with
   | .error e => .error e
   | .ok walkPrefix =>
-    match stat walkPrefix with
+    let st := stat walkPrefix
+    if walkPrefix = base ∧ (st = .absent ∨ st = .file) then .ok none
+    else match st with
     | .dir =>
-      if pre = [] ∨ hasSuffix pre [47] = true ∨ walkPrefix = base then .ok walkPrefix
-      else .ok (dirOf walkPrefix)
-    | _ => .ok (dirOf walkPrefix)
+      if pre = [] ∨ hasSuffix pre [47] = true ∨ walkPrefix = base then .ok (some walkPrefix)
+      else .ok (some (dirOf walkPrefix))
+    | .file | .absent => .ok (some (dirOf walkPrefix))
+    | .other => .error .statErr
 
 /-- `Query.MatchesKey`: the key (path relative to the base path) must start with the query's key prefix. -/
 def queryMatchesKey (pre key : Path) : Bool := hasPrefix key pre
+
+/-! ### The file system the query runs on, and `filepath.Walk` with the callback of `queryExecutor`
+
+The state of the file system is an input of `Query` (it consults `os.Stat`, and the walk visits what is there).
+A directory is the list of its entries, in the order `readDirNames` delivers them (sorted); the whole file
+system is the directory `/`.  A file carries one bit: whether it is a well-formed, valid, permitted record that
+matches the query (delivered) or not (`NewRawWrapper` fails: the walk stops with an error). -/
+
+inductive Ents where
+  | nil : Ents
+  | file (name : Path) (ok : Bool) (rest : Ents) : Ents
+  | dir (name : Path) (sub : Ents) (rest : Ents) : Ents
+  deriving Repr
+
+inductive FKind where
+  | file (ok : Bool) | dir (e : Ents) | absent | notdir
+
+/-- The entry `name` of a directory: `none` no such entry, `some (.inl ok)` a file, `some (.inr sub)` a directory. -/
+def Ents.get : Ents → Path → Option (Bool ⊕ Ents)
+  | .nil, _ => none
+  | .file n ok rest, name => if n = name then some (.inl ok) else rest.get name
+  | .dir n sub rest, name => if n = name then some (.inr sub) else rest.get name
+
+/-- Follow directory entries from a directory (ENOENT / ENOTDIR as the kernel reports them). -/
+def lookupSegs : Ents → List Path → FKind
+  | e, [] => .dir e
+  | e, s :: ss =>
+    match e.get s with
+    | none => .absent
+    | some (.inl ok) => if ss = [] then .file ok else .notdir
+    | some (.inr sub) => lookupSegs sub ss
+
+/-- `os.Stat` / `os.Lstat` of an absolute path (the code only passes cleaned paths; no symbolic links). -/
+def fsLookup (fs : Ents) (p : Path) : FKind := lookupSegs fs (resolve p)
+
+def statKindOf (fs : Ents) (p : Path) : StatKind :=
+  match fsLookup fs p with
+  | .file _ => .file | .dir _ => .dir | .absent => .absent | .notdir => .other
+
+/-- What the query does to the file system. -/
+inductive Access where
+  | stat (p : Path)   -- os.Stat / os.Lstat
+  | list (p : Path)   -- readDirNames: the directory is opened and its entries are read
+  | read (p : Path)   -- os.ReadFile
+  deriving Repr, DecidableEq
+
+def Access.path : Access → Path
+  | .stat p => p | .list p => p | .read p => p
+
+structure WalkRes where
+  acc : List Access := []    -- accesses, in order
+  keys : List Path := []     -- keys of the records delivered to the iterator
+  stop : Bool := false       -- the callback returned an error: the walk ends
+  deriving Repr, DecidableEq
+
+/-- Directory entries have proper names (not empty, not `.` / `..`, no separator), at every level. -/
+def Ents.NamesNormal : Ents → Prop
+  | .nil => True
+  | .file n _ rest => Normal n ∧ rest.NamesNormal
+  | .dir n sub rest => Normal n ∧ sub.NamesNormal ∧ rest.NamesNormal
+
+def WalkRes.andThen (a : WalkRes) (b : WalkRes) : WalkRes :=
+  if a.stop then a else { acc := a.acc ++ b.acc, keys := a.keys ++ b.keys, stop := b.stop }
+
+/-- The callback of `queryExecutor` on a file (after the walk's `lstat`): scope check without separator,
+    `ReadFile`, `Rel`, key prefix, parsing. -/
+def visitFile (base pre p : Path) (ok : Bool) : WalkRes :=
+  if !hasPrefix p base then { acc := [.stat p] }
+  else match relOf base p with
+    | none => { acc := [.stat p, .read p], stop := true }
+    | some key =>
+      if !queryMatchesKey pre key then { acc := [.stat p, .read p] }
+      else if !ok then { acc := [.stat p, .read p], stop := true }
+      else { acc := [.stat p, .read p], keys := [key] }
+
+/-- `filepath.walk` over the entries of the directory `dirPath`: `lstat` every entry; a file goes to the
+    callback; a directory is listed first, then the callback decides (`SkipDir` if its path does not start
+    with the base path), then its entries are walked. -/
+def walkEnts (base pre dirPath : Path) : Ents → WalkRes
+  | .nil => {}
+  | .file name ok rest =>
+    (visitFile base pre (join2 dirPath name) ok).andThen (walkEnts base pre dirPath rest)
+  | .dir name sub rest =>
+    let p := join2 dirPath name
+    let here : WalkRes :=
+      if hasPrefix p base then
+        WalkRes.andThen { acc := [.stat p, .list p] } (walkEnts base pre p sub)
+      else { acc := [.stat p, .list p] }
+    here.andThen (walkEnts base pre dirPath rest)
+
+/-- `filepath.Walk(walkRoot, callback)`. -/
+def walkTop (fs : Ents) (base pre walkRoot : Path) : WalkRes :=
+  match fsLookup fs walkRoot with
+  | .absent => { acc := [.stat walkRoot] }                 -- the callback gets ErrNotExist: nothing is stored there
+  | .notdir => { acc := [.stat walkRoot], stop := true }   -- any other error ends the walk
+  | .file ok => visitFile base pre walkRoot ok
+  | .dir e =>
+    if hasPrefix walkRoot base then
+      WalkRes.andThen { acc := [.stat walkRoot, .list walkRoot] } (walkEnts base pre walkRoot e)
+    else { acc := [.stat walkRoot, .list walkRoot] }
+
+/-- `fstree.Query` + `queryExecutor` on the file system `fs`. -/
+def queryRun (fs : Ents) (base pre : Path) : Except Err WalkRes :=
+  match buildFilePath base pre false with
+  | .error e => .error e
+  | .ok walkPrefix =>
+    match queryWalkRoot base pre (statKindOf fs) with
+    | .error e => .error e
+    | .ok none => .ok { acc := [.stat walkPrefix] }
+    | .ok (some wr) => .ok (WalkRes.andThen { acc := [.stat walkPrefix] } (walkTop fs base pre wr))
 
 /-- The directories `DirStructure.ensure` passes to `EnsureDirectory`, in order: the root as given,
     then `filepath.Join` of the path so far with each element.  (A child registered with `ChildDir`
@@ -196,5 +313,113 @@ def scanRoot (storage cwd root : Path) : Except Err Path :=
 def bridgeURL (apiV1Path p : Path) : Except Err Path :=
   let u := join2 apiV1Path p
   if !hasPrefix u apiV1Path then .error .scope else .ok u
+
+/-! ### `utils.DirStructure` as a stateful object: the tree of registered children
+
+A `DirStructure` value is a node: `Path`, `Perm`, `Parent`, `Children` (a map from the *name given to
+`ChildDir`* to the child).  The model keeps all nodes of one tree in a list; a handle is an index,
+node 0 is the structure made by `NewDirStructure`.  `ChildDir` is the only call that changes the
+tree; the `Ensure*` calls read it (`ensure` follows registered children element by element). -/
+
+structure DNode where
+  parent : Option Nat   -- `Parent` (none: the top-level structure)
+  key : Path            -- the key under which `Parent.Children` holds this node (= `Dir`)
+  path : Path           -- `Path`
+  perm : Nat            -- `Perm`
+  deriving Repr, DecidableEq
+
+abbrev DTree := List DNode
+
+/-- `NewDirStructure(path, perm)`. -/
+def newDirStructure (path : Path) (perm : Nat) : DTree := [{ parent := none, key := [], path := path, perm := perm }]
+
+def DTree.pathOf (t : DTree) (h : Nat) : Path := match t[h]? with | some n => n.path | none => []
+def DTree.permOf (t : DTree) (h : Nat) : Nat := match t[h]? with | some n => n.perm | none => 0
+
+/-- `ds.Children[name]` for the node with handle `h`: the first node registered with this parent and key. -/
+def findChildFrom (h : Nat) (name : Path) : Nat → List DNode → Option Nat
+  | _, [] => none
+  | i, n :: rest => if n.parent = some h ∧ n.key = name then some i else findChildFrom h name (i + 1) rest
+
+def findChild (t : DTree) (h : Nat) (name : Path) : Option Nat := findChildFrom h name 0 t
+
+/-- `ds.ChildDir(dirName, perm)` on handle `h`: the new tree and the handle of the child.
+    An existing child (same key) gets the new permissions; a new child has
+    `Path = filepath.Join(ds.Path, dirName)` and is registered under `dirName` as given. -/
+def childDir (t : DTree) (h : Nat) (dirName : Path) (perm : Nat) : DTree × Nat :=
+  match findChild t h dirName with
+  | some c => (t.modify c (fun n => { n with perm := perm }), c)
+  | none => (t ++ [{ parent := some h, key := dirName, path := join2 (t.pathOf h) dirName, perm := perm }], t.length)
+
+/-- The remaining directories `ensure` creates once no registered child matches: all with the
+    permissions of the structure where the registered tree ended. -/
+def ensureChainP (perm : Nat) (cur : Path) : List Path → List (Path × Nat)
+  | [] => []
+  | d :: ds => let nxt := join2 cur d; (nxt, perm) :: ensureChainP perm nxt ds
+
+/-- `ds.ensure(pathDirs)` on handle `h`: the calls `EnsureDirectory(path, perm)` in order. -/
+def ensureFrom (t : DTree) : Nat → List Path → List (Path × Nat)
+  | h, [] => [(t.pathOf h, t.permOf h)]
+  | h, d :: ds =>
+    (t.pathOf h, t.permOf h) ::
+      match findChild t h d with
+      | none => ensureChainP (t.permOf h) (t.pathOf h) (d :: ds)
+      | some c => ensureFrom t c ds
+
+/-- "always start at the top": follow `Parent` until there is none (fuel = number of nodes). -/
+def topOf (t : DTree) : Nat → Nat → Nat
+  | 0, h => h
+  | f + 1, h => match t[h]? with
+    | some n => (match n.parent with | some p => topOf t f p | none => h)
+    | none => h
+
+/-- `EnsureAbsPath(dirPath)` called on any node of the tree. -/
+def ensureAbsPathT (t : DTree) (h : Nat) (dirPath : Path) : Except Err (List (Path × Nat)) :=
+  let top := topOf t t.length h
+  let root := t.pathOf top
+  let dirPath := clean dirPath
+  if dirPath = root then .ok (ensureFrom t top [])
+  else
+    let slashed := if hasSuffix root [47] then root else root ++ [47]
+    if !hasPrefix dirPath slashed then .error .outside
+    else match relOf root dirPath with
+      | none => .error .relErr
+      | some rel => .ok (ensureFrom t top (splitSep rel))
+
+/-- `Ensure()`, `EnsureRelPath(p)`, `EnsureRelDir(names...)` on handle `h`. -/
+def ensureT (t : DTree) (h : Nat) : Except Err (List (Path × Nat)) := ensureAbsPathT t h (t.pathOf h)
+def ensureRelPathT (t : DTree) (h : Nat) (rel : Path) : Except Err (List (Path × Nat)) :=
+  ensureAbsPathT t h (join2 (t.pathOf h) rel)
+def ensureRelDirT (t : DTree) (h : Nat) (names : List Path) : Except Err (List (Path × Nat)) :=
+  ensureAbsPathT t h (joinList (t.pathOf h :: names))
+
+/-- The calls a caller can make on a tree (handles and names are arbitrary). -/
+inductive DCall where
+  | childDir (h : Nat) (name : Path) (perm : Nat)
+  | ensure (h : Nat)
+  | ensureAbs (h : Nat) (p : Path)
+  | ensureRel (h : Nat) (rel : Path)
+  | ensureRelDir (h : Nat) (names : List Path)
+
+/-- One call: the tree afterwards and the directories handed to `EnsureDirectory` (none for `ChildDir`,
+    none if the call is refused).  A handle that does not exist is not a call. -/
+def dcall (t : DTree) : DCall → DTree × Except Err (List (Path × Nat))
+  | .childDir h name perm => if h < t.length then ((childDir t h name perm).1, .ok []) else (t, .ok [])
+  | .ensure h => (t, if h < t.length then ensureT t h else .ok [])
+  | .ensureAbs h p => (t, if h < t.length then ensureAbsPathT t h p else .ok [])
+  | .ensureRel h rel => (t, if h < t.length then ensureRelPathT t h rel else .ok [])
+  | .ensureRelDir h names => (t, if h < t.length then ensureRelDirT t h names else .ok [])
+
+/-- A history of calls: everything handed to `EnsureDirectory` along the way. -/
+def dhistory (t : DTree) : List DCall → List (Path × Nat)
+  | [] => []
+  | c :: cs =>
+    let (t', r) := dcall t c
+    (match r with | .ok ds => ds | .error _ => []) ++ dhistory t' cs
+
+/-- The tree after a history of calls. -/
+def treeAfter (t : DTree) : List DCall → DTree
+  | [] => t
+  | c :: cs => treeAfter (dcall t c).1 cs
 
 end PB.Paths
